@@ -206,22 +206,28 @@ def job_format(ctx, mode, rep, fmt, ranges=None):
         p = i["p"]
         return z3.And(C.m_valid_point(mode, p, rep, True))
 
+    literal_zone = fmt.endswith("Z") or any(ch.isdigit() for ch in fmt)
+
     def body(i):
         p = i["p"]
         s = DUMPER.dump(p, fmt)
         q = PARSER.parse(s)
-        return s, q
+        # the real == as well where it is cheap (no zone conversion inside the dump)
+        return s, q, ((q == p), (p == q)) if not literal_zone else None
 
     def post(i, out):
         if out[0] != "ok":
             return [("dump with a complete format parses back", False)]
         p = i["p"]
-        s, q = out[1]
+        s, q, eqs = out[1]
         qr = C.rep_of(q)
         if qr is None:
             return [("full date", False)]
-        return [("parses back to the same instant", L(C.m_instant(mode, q, qr)) == L(C.m_instant(mode, p, rep))),
-                ("valid point", C.m_valid_point(mode, q, qr, True))]
+        obs = [("parses back to the same instant", L(C.m_instant(mode, q, qr)) == L(C.m_instant(mode, p, rep))),
+               ("valid point", C.m_valid_point(mode, q, qr, True))]
+        if eqs is not None:
+            obs.append(("parsed == original, both ways (real ==)", bool(eqs[0]) and bool(eqs[1])))
+        return obs
 
     def case_of(v, i):
         kw = case_point(v, rep, ned, False, "sym", "sym")
@@ -276,8 +282,8 @@ def replay(case, M):
                 q = P.parse(s)
             except Exception as exc:
                 return True, "dump(%s, %r) = %r does not parse back: %s" % (p, case["fmt"], s, exc)
-            bad = C.py_instant(mode, q) != C.py_instant(mode, p)
-            return bad, "dump(%s, %r) = %r parses back to %s" % (p, case["fmt"], s, q)
+            bad = C.py_instant(mode, q) != C.py_instant(mode, p) or not (q == p) or not (p == q)
+            return bad, "dump(%s, %r) = %r parses back to %s (== original: %s / %s)" % (p, case["fmt"], s, q, q == p, p == q)
         s = str(p)
         try:
             q = P.parse(s)
